@@ -85,15 +85,21 @@ def build_requests(tape, schema, tier, shared_pct=40, max_req=None):
     ndocs = t.rint(1, 3)
     docs = []
     for i in range(ndocs):
-        doc = gen_document(schema, tape, {"max_depth": 3, "max_sel": 4, "max_frags": 2, "max_ops": 2}, stream="doc%d" % i)
+        novars = t.chance(30)
+        doc = gen_document(schema, tape, {"max_depth": 3, "max_sel": 4, "max_frags": 2, "max_ops": 2,
+                                          "var_pct": 0 if novars else 25, "directive_vars": not novars, "opt_arg_pct": 35 if novars else 55},
+                           stream="doc%d" % i)
         # a query-side custom directive whose argument comes from a variable: the same text with
         # other variable values must behave differently (odd k fails the field)
-        if t.chance(50):
+        if t.chance(50) and not novars:
             for op in doc.operations():
                 fields = [x for x in op.sels if x.kind == "field" and x.name != "__typename"]
                 if fields and op.op != "subscription":
                     f = fields[t.draw(len(fields))]
-                    f.directives = list(f.directives) + [DirUse("mark", [("k", ("var", "mk"))])]
+                    if t.chance(50):
+                        f.directives = list(f.directives) + [DirUse("mark", [("k", ("var", "mk"))])]
+                    else:  # the variable nested two levels deep in a list literal
+                        f.directives = list(f.directives) + [DirUse("mark", [("k", ("int", 0)), ("deep", ("list", [("list", [("var", "mk"), ("int", 4)])]))])]
                     op.vardefs = list(op.vardefs) + [("mk", ("NN", ("N", "Int")), ABSENT)]
         text = print_document(doc, tape.draw("doc%d" % i, 3))
         docs.append((doc, text))
@@ -142,7 +148,7 @@ def build_requests(tape, schema, tier, shared_pct=40, max_req=None):
 def run_one(seed, preset=None, tier="quick", want_case=False):
     tape = Tape(seed, preset)
     cfgt = tape.sub("cfg")
-    schema = gen_schema(tape, {"max_objects": 4, "default_impl_pct": 15})
+    schema = gen_schema(tape, {"max_objects": 4, "default_impl_pct": 15, "lag_pct": 20 if (seed % 4 == 0) else 0})
     sdl = print_sdl(schema) + MARK_SDL
     reqs = build_requests(tape, schema, tier)
     cfg = pick_engine_cfg(cfgt)
@@ -155,13 +161,14 @@ def run_one(seed, preset=None, tier="quick", want_case=False):
         extra["query_cache_decorator"] = lru_cache(maxsize=1)
     sch = pick_scheduler(cfgt)
     cancel = cfgt.draw(len(reqs)) if cfgt.chance(30) else None
+    cancel_steps = cfgt.draw(24) if (cancel is not None and cfgt.chance(50)) else None
     name, twin = "%s_%d" % (ID, seed), "%s_%d_twin" % (ID, seed)
     viol = []
     try:
         engine = cook_engine(schema, name, cfg, sdl=sdl, pre=register_mark, **extra)
         twin_engine = cook_engine(schema, twin, cfg, sdl=sdl, pre=register_mark, query_cache_decorator=None)
         shared = {}
-        out = run_batch(engine, reqs, tape.sub("sched"), sch[0], sch[1], sch[2], cancel, True, shared)
+        out = run_batch(engine, reqs, tape.sub("sched"), sch[0], sch[1], sch[2], cancel, True, shared, cancel_after_steps=cancel_steps)
         if out.exc is not None:
             viol.append(V("no_termination", "batch did not terminate: %r" % (out.exc,)))
         solos = {}
